@@ -56,12 +56,13 @@ pub struct Ctx {
     out: std::io::BufWriter<std::fs::File>,
     pub case: u64,
     pub events: u64,
-    pub cases_file: Option<std::io::BufWriter<std::fs::File>>,
+    /// outcome class a model scenario prescribes for the next Issue / Present call ("" = none)
+    pub hexpect: String,
 }
 impl Ctx {
     pub fn new(path: &str) -> Ctx {
         std::panic::set_hook(Box::new(|_| {}));
-        Ctx { out: std::io::BufWriter::new(std::fs::File::create(path).expect("trace file")), case: 0, events: 0, cases_file: None }
+        Ctx { out: std::io::BufWriter::new(std::fs::File::create(path).expect("trace file")), case: 0, events: 0, hexpect: String::new() }
     }
     pub fn emit(&mut self, line: String) {
         self.events += 1;
@@ -164,6 +165,7 @@ pub fn issue(ctx: &mut Ctx, issuer: &mut SDJWTIssuer, a: &IssueArgs) -> Out<Stri
         ("hkjwk", hk_json(a.hk)),
         ("decoy", a.decoy.to_string()),
         ("fmt", qs(a.fmt.name())),
+        ("hexpect", qs(&std::mem::take(&mut ctx.hexpect))),
         ("out", out_json(&res, extra)),
     ]);
     ctx.emit(line);
@@ -214,6 +216,7 @@ pub fn present(ctx: &mut Ctx, inst: &str, holder: &mut SDJWTHolder, fmt: Fmt, se
         ("pair", pair.to_string()),
         ("t0", msg::rel_time(t0).to_string()),
         ("t1", msg::rel_time(t1).to_string()),
+        ("hexpect", qs(&std::mem::take(&mut ctx.hexpect))),
         ("out", out_json(&res, extra)),
     ]);
     ctx.emit(line);
